@@ -140,7 +140,7 @@ PROPS = {
                   'Deeprob.C19.moment_negative', 'Deeprob.C19.bernoulli_moment', 'Deeprob.Oblig.C19.variance_is_central2',
                   'Deeprob.Oblig.C19.skewness_is_central3', 'Deeprob.Oblig.C19.skewness_sigma', 'Deeprob.Oblig.C19.kurtosis_is_excess',
                   'Deeprob.Oblig.C19.moment_guard'],
-        fragments=['moments.variance', 'moments.skewness', 'moments.kurtosis', 'skewnessNum', 'momentRejects'],
+        fragments=['moments.variance', 'moments.skewness', 'moments.kurtosis', 'moments.skewness.parts', 'moments.moment.guard'],
         rule='valid circuits (trees and DAGs) with root scope {0..n-1} in any order over Bernoulli / Categorical / Gaussian / '
              'Uniform / Isotonic leaves; orders 0-4 and a negative order; raw moments against the exact model value (closed-form leaf '
              'moments), derived statistics against the textbook formulas evaluated on the implementation\'s own raw moments with a '
@@ -165,12 +165,31 @@ PROPS = {
                   'Deeprob.Oblig.C13.fit_loadable_gaussian', 'Deeprob.Oblig.C13.em_loadable_gaussian', 'Deeprob.Oblig.C13.fit_loadable_bernoulli',
                   'Deeprob.Oblig.C13.weights_loadable', 'Deeprob.Oblig.C13.probabilities_loadable', 'Deeprob.Oblig.C13.densities_loadable',
                   'Deeprob.Oblig.C13.round8_is_generated'],
-        fragments=['gaussCtorRejects', 'gaussFitClamp', 'gaussEmClamp', 'bernCtorRejects', 'bernFit', 'catFit', 'sumCtorRejects', 'jsonDigits'],
+        fragments=['Gaussian.__init__', 'Gaussian.fit.clamp', 'Gaussian.em_step.clamp', 'Bernoulli.__init__', 'Bernoulli.fit', 'Categorical.fit', 'Sum.__init__', 'Categorical.__init__', 'Isotonic.__init__', 'jsonDigits'],
         rule='hand-built circuits over every leaf family (incl. CLT leaves, sharing), Chow-Liu trees saved alone, circuits returned '
              'by LearnSPN (Gaussian with a constant column, Uniform, Isotonic), XPC (deterministic; structured decomposable), the '
              'classifier wrapper and CLT fitting; path and file-object targets; three generations; document numbers compared with the '
              'model encoding exactly; inputs within 1e-6 of a histogram break / support edge excluded from the log-likelihood '
              'comparison; non-trivial = more than one node; distinct = distinct node table / learner configuration',
+    ),    'C14': dict(
+        module='c14',
+        modules=['DeeprobModel.Props.C14', 'DeeprobModel.Oblig.C14'],
+        theorems=['Deeprob.C14.em_prefix_inv', 'Deeprob.C14.backward_is_derivative_partial', 'Deeprob.C14.root_affine_in_node_partial',
+                  'Deeprob.C14.resp_sum_one', 'Deeprob.Oblig.C14.sum_em_simplex', 'Deeprob.Oblig.C14.bernoulli_em_range',
+                  'Deeprob.Oblig.C14.categorical_em_simplex', 'Deeprob.Oblig.C14.gaussian_em_sigma_pos', 'Deeprob.Oblig.C14.clt_em_cell_in_unit_pa1',
+                  'Deeprob.Oblig.C14.clt_em_cell_in_unit_pa0', 'Deeprob.Oblig.C14.clt_em_rows_normalised', 'Deeprob.Oblig.C14.clt_em_table_ok',
+                  'Deeprob.Oblig.C14.sum_is_convex_update', 'Deeprob.Oblig.C14.bernoulli_is_convex_update', 'Deeprob.Oblig.C14.categorical_is_convex_update',
+                  'Deeprob.Oblig.C14.gaussian_mean_is_convex_update', 'Deeprob.Oblig.C14.gaussian_std_is_convex_update',
+                  'Deeprob.Oblig.C14.clt_is_convex_update', 'Deeprob.Oblig.C14.em_guard'],
+        fragments=['Sum.em_step', 'Bernoulli.em_step', 'Categorical.em_step', 'Gaussian.em_step.mean', 'Gaussian.em_step.stddev', 'BinaryCLT.em_step', 'em.guards'],
+        rule='random valid DAG circuits over Bernoulli / Categorical / Gaussian / Chow-Liu-tree leaves, random data (one in seven with a '
+             'constant column), step sizes and batch fractions in (0,1), random and given initialisation; single iterations repeated '
+             '4 (quick) / 8 (thorough) times with a RandomState that reveals the sampled batch; after every iteration: structure, '
+             'validity, simplex / domain / normalisation invariants, and every parameter against the model step (generated formulas '
+             'at Q on the exact responsibilities of that batch); non-trivial = every circuit (all have a sum node); distinct = '
+             'distinct node table',
+        level_note='backward_is_derivative is proved for tree-shaped circuits (…_partial); for DAGs the backward pass of the model is tied to '
+                   'the implementation by the per-parameter comparison only. Trusted as for the other checks.',
     ),
 }
 
